@@ -236,6 +236,12 @@ func verif_Proxy_Close(p Proxy) { p.Close() }
 
 //verif:guarded Manager mu pxys
 
+// C16 "mutexes around every shared map": every method of these types (and every
+// function literal inside them), whether or not it has a contract of its own,
+// is swept for accesses to the guarded fields without the lock.
+//
+//verif:sweep-type Manager props=C16 kinds=lock
+
 //verif:invariant Manager mu
 func (pm *Manager) verifInvNames(name string) bool {
 	return pm.pxys != nil
